@@ -40,9 +40,10 @@ def main():
     # demo with / without
     if os.path.exists(demo):
         rc1, out1 = sh('timeout 120 /venv/bin/python demo_break.py', cwd=wt, timeout=200)
-        sh('git stash -q -- mpyc', cwd=wt)
+        sh('git checkout -- mpyc', cwd=wt)          # NB: no git stash: the stash is shared between worktrees
         rc0, out0 = sh('timeout 120 /venv/bin/python demo_break.py', cwd=wt, timeout=200)
-        sh('git stash pop -q', cwd=wt)
+        rca, outa = sh(f'git apply {os.path.join(d, "patch.diff")}', cwd=wt)
+        assert rca == 0, outa
         meta['demo_with_change_exit'] = rc1
         meta['demo_without_change_exit'] = rc0
         meta['demo_with_change_tail'] = out1[-300:]
